@@ -883,6 +883,46 @@ def agg_focus(text, pid):
     return '\n'.join(keep)
 
 
+def agg_code_tie(chk, c2m, d, quick):
+    """the call argument area of `c2m -S` (alloca size, `add t, fp, offset` per reserved result slot, by-address results) against
+    the extracted CallTemps model (area_size, Alloc / Write events) on seeded expression trees; returns the disagreements"""
+    import gen_c07_agg as VG
+    model = vlib.ocaml_build('c07ct', 'Extract_C07ct', ['c07ctx'], 'driver_c07ct.ml')
+    breaks = []
+    for u in range(4 if quick else 40):
+        rng = chk.rng('calltemps%d' % u)
+        text, probe, funs = VG.gen_tie_unit(rng)
+        src = os.path.join(d, 'ctprobe.c')
+        open(src, 'w').write(probe)
+        rc, out, err = run_gcc(src, d, 'ctprobe')
+        if rc != 0:
+            raise vlib.BuildError('gen_c07_agg: size probe rejected by gcc: ' + err[-300:])
+        sizes = [int(x) for x in out.split()]
+        src = os.path.join(d, 'ctunit.c')
+        open(src, 'w').write(text)
+        rc, out, err = vlib.sh([c2m, '-S', src, '-o', os.path.join(d, 'ctunit.mir')], timeout=60, cwd=d)
+        if rc != 0:
+            breaks.append('c2m -S rejects the tie unit %d: %s' % (u, err.strip().split('\n')[-1][:200]))
+            continue
+        mir = VG.parse_tie_mir(open(os.path.join(d, 'ctunit.mir')).read())
+        rc, ans, err = vlib.run_lines(model, [VG.tie_query(b, sizes) for f, b in funs], timeout=120)
+        if rc != 0 or len(ans) != len(funs) or any(not a.startswith('area') for a in ans):
+            raise vlib.BuildError('driver_c07ct failed: rc=%d %s %s' % (rc, err[-300:], ans[:1]))
+        for (f, body), a in zip(funs, ans):
+            w = a.split('|')[1].split()
+            area = int(a.split()[1])
+            allocs = [int(w[k + 1]) for k in range(0, len(w), 3) if w[k] == 'A']
+            memwrites = [(int(w[k + 1]), int(w[k + 2])) for k in range(0, len(w), 3) if w[k] == 'W' and int(w[k + 2]) > 16]
+            got = mir.get(f)
+            chk.count('Vtie:%d:%s' % (u, f), nontrivial=len(allocs) >= 2)
+            chk.dist('V_code_tie', 'slots-in-function:%d' % min(len(allocs), 12))
+            if got is None or got[0] != area or got[1] != allocs or got[2] != memwrites:
+                breaks.append('%s: model area %d, slot offsets %s, by-address results %s; c2m -S %s   [%s]'
+                              % (f, area, allocs, memwrites, got, ' '.join('r ^= %s;' % VG.render(t) for t in body)[:300]))
+                chk.dist('V_code_tie', 'DISAGREES')
+    return breaks
+
+
 def part_agg(chk, c2m, d, quick):
     import gen_c07_agg as VG
     n = 6 if quick else 120
@@ -931,7 +971,7 @@ def part_agg(chk, c2m, d, quick):
                         % (' '.join(stmt)[:300], ','.join(b[0] for b in bad[pid]), (r4.get(eng, (0, ''))[1]).strip().replace('\n', ' ')[:100],
                            (r3[1] if r3 else '').strip().replace('\n', ' ')[:100]))
     chk.dist('V_programs', 'valid', n)
-    return nprobes, findings
+    return nprobes, findings, agg_code_tie(chk, c2m, d, quick)
 
 
 # ------------------------------------------------------------------ X: aggregates by value across the compiler boundary
@@ -1159,6 +1199,9 @@ def run(chk):
     quick = chk.tier == 'quick'
     lim = tr_c07_limits.check()
     r = chk.prove()
+    r2 = chk.prove('Properties_C07ct')      # call-result temporaries (CallTemps)
+    if not r2['ok']:
+        r = dict(r, ok=False, log=r['log'] + '\n' + r2['log'])
     chk.cov['trusted_base'] += ['extraction: ExtrOcamlBasic only, no Extract Constant/Inductive of our own',
                                 'ocaml/driver_c07.ml (parse + print only), tools/gen_c07_*.py (program generators)',
                                 'gcc 12 -O1 as the reference compiler (cross-checked against the Coq C11Conv/C11Fold specifications)',
@@ -1166,6 +1209,9 @@ def run(chk):
                                 'bit-fields: the theorems are about store_code/load_code of coq/C07/BitField.v interpreted with its own '
                                 'semantics of LSH/RSH/URSH/AND/OR and of typed unit loads/stores; tied to c2m by comparing `c2m -S` text '
                                 'with that code and by running the extracted model against every engine; layout (wf_bf) is assumed (C08)',
+                                'call-result temporaries: the theorems are about coq/C07/CallTemps.v (offset discipline of N_CALL in check()/gen()); tied to '
+                                'c2m by comparing the alloca size, the `add t, fp, off` instructions and the by-address result operands of `c2m -S` with the '
+                                'extracted model (ocaml/driver_c07ct.ml, parse + print only); that a slot is only used through the events modelled is assumed',
                                 'NOT proved (differential testing only): parser, statements, the rest of gen(), initialisers, '
                                 'struct copies, calls, the engines']
     with Scratch() as d:
@@ -1174,6 +1220,7 @@ def run(chk):
         n1 = n2 = n3 = n4 = n5 = n6 = 0
         model_breaks = []
         bf_tie = []
+        ct_tie = []
         if 'A' in parts:
             n1, bad_types = part_types(chk, c2m, model, d)
             n2, bad_values, model_breaks = part_values(chk, c2m, model, d, quick)
@@ -1186,7 +1233,7 @@ def run(chk):
         if 'P' in parts:
             n7, bad_addr = part_addr(chk, c2m, d, quick)
         if 'V' in parts:
-            n8, bad_agg = part_agg(chk, c2m, d, quick)
+            n8, bad_agg, ct_tie = part_agg(chk, c2m, d, quick)
         if 'X' in parts:
             n5, bad_abi = part_abi(chk, c2m, d, quick)
         if 'C' in parts or (not quick and 'C07_PARTS' not in os.environ):
@@ -1218,6 +1265,11 @@ def run(chk):
                        'scalar arguments before/after that use up registers; checksum of all leaves under 7 engine configurations vs gcc; '
                        'C (thorough tier only): every .c file of c-tests/{lacc,andrewchambers_c,new} not listed in corpus/c07_ctests_skip.txt: '
                        'stdout + exit status under -ei and -O2 -eg vs gcc (validated like B)')
+    if ct_tie and not chk.violations:
+        # the theorems of Properties_C07ct.v are about CallTemps.gen; the slots c2m reserves are no longer those
+        chk.finding('call-temps-code-tie', dict(broken=ct_tie[:6]),
+                    'the call argument area c2m -S shows is no longer the one the CallTemps theorems are about (%d functions differ), e.g. %s'
+                    % (len(ct_tie), ct_tie[0][:500]), no_input=True)
     tie_broken = bool(lim) or not r['ok'] or bool(model_breaks) or bool(bf_tie)
     if tie_broken and not chk.violations:
         r = dict(r)
